@@ -1,6 +1,8 @@
 import PgsVerif.Proofs.Hydrate
 import PgsVerif.Model.AstNav
 import PgsVerif.Model.Valid
+import PgsVerif.Proofs.DeclNodup
+import PgsVerif.Proofs.DeclFacts
 /-!
 # C01 (building never fails) and C02 (lookup) — the index timeline of the AST builder
 
@@ -342,4 +344,32 @@ def exB : FileD where
 def exW : World := ⟨[exA, exB], ["b.proto"], false⟩
 theorem exW_valid : Valid exW := validB_sound exW (by decide)
 example : ∃ g, hydrate exW = .ok g ∧ g.seen = (declared exW).reverse := C01_no_failure exW exW_valid
+end Pgs.AST
+
+/-! ### every declared entity exactly once -/
+namespace Pgs.AST
+
+theorem declFrom_refs_nodup : ∀ (fs : List FileD) (n : Nat), ((declFrom n fs).map (·.ref)).Nodup := by
+  intro fs
+  induction fs with
+  | nil => intro n; simp [declFrom]
+  | cons f fs ih =>
+    intro n
+    simp only [declFrom, List.map_append]
+    refine List.nodup_append.mpr ⟨declFile_refs_nodup n f, ih (n+1), ?_⟩
+    intro x hx y hy e
+    simp only [List.mem_map] at hx hy
+    obtain ⟨d1, h1, rfl⟩ := hx
+    obtain ⟨d2, h2, rfl⟩ := hy
+    have a := declFile_file d1 h1
+    have b := (declFrom_file fs (n+1) d2 h2).1
+    rw [e] at a
+    omega
+
+/-- **C01 (exactly once)**: no two declarations of a request — files, messages (map entries
+    included), enums, values, fields, oneofs, services, methods, extensions, at any depth — share a
+    reference; with `C01_no_failure` (the index holds exactly the declarations) every declared
+    entity is built exactly once.  Unconditional: holds for every request. -/
+theorem C01_refs_nodup (w : World) : ((declared w).map (·.ref)).Nodup := declFrom_refs_nodup w.files 0
+
 end Pgs.AST
